@@ -525,6 +525,23 @@ def replay(prop_id, path):
         c = reg[v["contract"]]
         inputs = v["failing_input"]["inputs"]
         inputs = {k: (x["bytes"].encode("latin-1") if isinstance(x, dict) and "bytes" in x else x) for k, x in inputs.items()}
+        if callable(c.domain):
+            # domains of real objects (parsed documents, possibly edited first) are recorded by their text: take the recorded
+            # input from the domain again (same generator, deterministic) instead of handing the text to the function
+            recorded = v["failing_input"]["inputs"]
+            found = None
+            for tier in ("quick", "thorough"):
+                for cand in c.domain(tier):
+                    if _jsonable(cand) == recorded:
+                        found = cand
+                        break
+                if found is not None:
+                    break
+            if found is None:
+                print("the recorded input is not in the contract's domain any more: re-running the native domain instead")
+                rc = run_property(prop_id, "quick", 0)
+                return rc
+            inputs = found
         out = check_native(c, inputs)
         print("inputs:", inputs)
         print("native outcome:", out.describe())
